@@ -9,8 +9,10 @@ import (
 
 /* Generators of styled text shared by several groups. */
 
-/* Inputs on which the real code is known to break the property as stated (reported, not repaired)
-   are kept out of the generated ops; set to true to see them reported. */
+/*
+Inputs on which the real code is known to break the property as stated (reported, not repaired)
+are kept out of the generated ops; set to true to see them reported.
+*/
 const genReportedDefects = false
 
 var sgrPool = []string{"1", "3", "4", "9", "38;2;164;245;155", "48;2;75;75;75", "38;2;156;53;53", "48;2;13;125;0"}
@@ -21,12 +23,17 @@ var spacePool = []rune{' ', ' ', ' ', ' ', ' ', ' ', ' ', ' ', '\u3000', '\t', '
 	/* the rest of unicode.IsSpace */
 	'\u1680', '\u2000', '\u2001', '\u2002', '\u2004', '\u2005', '\u2006', '\u2007', '\u2008', '\u2009', '\u200a', '\u2028', '\u2029', '\u202f', '\u205f'}
 
-/* characters that look like blanks or have no width of their own but are NOT unicode.IsSpace:
-   they belong to the word they stand in */
+/*
+characters that look like blanks or have no width of their own but are NOT unicode.IsSpace:
+they belong to the word they stand in
+*/
 var nonSpacePool = []rune{'\u200b', '\u200c', '\u200d', '\u2060', '\ufeff', '\u180e', '\u00ad', '\u034f', '\u2800', '\u3164', '\u0301', '\u0308', '\u20d7', '\ufe0f', '\U000e0100'}
 
-/* wide (East Asian), emoji with modifiers, and other characters a terminal shows in two columns
-   or none: one cell each in servitor's arithmetic */
+/*
+wide (East Asian), emoji with modifiers, and other characters a terminal shows in two columns
+
+	or none: one cell each in servitor's arithmetic
+*/
 var widePool = []rune("漢字かなカナ한글，。（）😀👍🏽🇩🇪ＡＢ１２")
 
 type cell struct {
@@ -146,8 +153,11 @@ func genWidth(r *rand.Rand) int {
 	return 50 + r.Intn(200)
 }
 
-/* a paragraph as a post has it: many ordinary words on few long lines (what wrapping at 80, 120,
-   200 columns actually works on), styled in stretches */
+/*
+a paragraph as a post has it: many ordinary words on few long lines (what wrapping at 80, 120,
+
+	200 columns actually works on), styled in stretches
+*/
 func genParagraph(r *rand.Rand, words int) string {
 	cells := []cell{}
 	var attrs []string
@@ -183,8 +193,11 @@ func genParagraph(r *rand.Rand, words int) string {
 	return renderCells(cells)
 }
 
-/* a line whose interesting character sits right where a line of width w ends: position w-1, w
-   or w+1 (0-based), surrounded by ordinary words */
+/*
+a line whose interesting character sits right where a line of width w ends: position w-1, w
+
+	or w+1 (0-based), surrounded by ordinary words
+*/
 func genAtBreak(r *rand.Rand, w int) string {
 	special := pick(r, [][]rune{widePool, nonSpacePool, spacePool, []rune("\n"), []rune("-/.,")})
 	pos := w + r.Intn(3) - 1
